@@ -1,7 +1,7 @@
 (* Model of http_forwarded_stream.rs serialize_request: the HTTP/1.1 request head written to the target host of a
    non-CONNECT request on the tunnel channel, and the framing chosen for its body. Header names are lower case (http::HeaderMap). *)
 From Coq Require Import List NArith Bool.
-From TT Require Import Lib.BytesL Model.Http1Wire.
+From TT Require Import Lib.BytesL Model.Http1Wire Model.HopByHop.
 Import ListNotations.
 Open Scope N_scope.
 
@@ -15,6 +15,10 @@ Definition n_options : list N := [79; 80; 84; 73; 79; 78; 83].
 Definition n_head : list N := [72; 69; 65; 68].
 
 Definition seqb (a b : list N) : bool := list_eqb N.eqb a b.
+
+(* is_chunked: the final transfer coding of the value (the last comma-separated element, trimmed) is "chunked" in any case *)
+Definition is_chunked (v : list N) : bool :=
+  seqb (lower_s (trim (last (split_comma v) []))) v_chunked.
 
 Inductive framing := Det (n : N) | Chunked.
 
@@ -60,17 +64,18 @@ Fixpoint ser_fields (authority : list N) (hs : list header) (host_seen : bool) (
         | Some (Det _) => None
         | Some Chunked => next fr
         end
-      else if seqb name n_tenc && seqb (snd h) v_chunked then next (Some Chunked)
+      else if seqb name n_tenc && is_chunked (snd h) then next (Some Chunked)
       else next fr
   end.
 
-(* [multiplexed]: the client speaks HTTP/2 or HTTP/3 (a body without a stated length is sent chunked) *)
+(* [target]: the request's path and query (for a request without a path: * for OPTIONS, / otherwise - the caller's business);
+   [multiplexed]: the client speaks HTTP/2 or HTTP/3 (a body without a stated length is sent chunked) *)
 Definition ser_request (method target : list N) (minor : N) (multiplexed : bool) (authority : list N) (hs : list header)
   : option (list N * framing) :=
   match ser_fields authority hs false None with
   | None => None
   | Some (b, seen, fr) =>
-    let line := method ++ [32] ++ (if seqb method n_options then [42] else target) ++ [32] ++ http1_version minor ++ crlf in
+    let line := method ++ [32] ++ target ++ [32] ++ http1_version minor ++ crlf in
     let tail := (if seen then [] else n_host ++ [58; 32] ++ authority ++ crlf) ++ crlf in
     Some (line ++ b ++ tail,
           if seqb method n_head then Det 0
